@@ -204,3 +204,48 @@ def handler_is_catch_all(handler, broad=("Exception", "BaseException")):
     if not ts:
         return True
     return any(t.split(".")[-1] in broad for t in ts)
+
+
+# ---- role binding: find a local by what it is bound to, not by what it is called -----------------------------------
+def loop_targets(fn, iter_pred):
+    """Target names (flattened) of the for-loops of `fn` whose iterable satisfies iter_pred(norm(iter), iter_node).
+    Returns a list of lists (one per loop, source order)."""
+    out = []
+    for n in walk_own(fn):
+        if isinstance(n, (ast.For, ast.AsyncFor)) and iter_pred(norm(n.iter), n.iter):
+            t = n.target
+            out.append([norm(e) for e in t.elts] if isinstance(t, (ast.Tuple, ast.List)) else [norm(t)])
+    return out
+
+
+def bound_names(fn, value_pred, nested=False):
+    """Names `x` of assignments `x = <value>` / `x: T = <value>` / `with <value> as x` / `x := <value>` in `fn` whose
+    value satisfies value_pred(norm(value), value_node); source order, duplicates removed.  For tuple targets the
+    whole tuple's element names are returned as a tuple."""
+    out = []
+    walker = ast.walk(fn) if nested else walk_own(fn)
+    for n in walker:
+        pairs = []
+        if isinstance(n, ast.Assign):
+            pairs = [(t, n.value) for t in n.targets]
+        elif isinstance(n, ast.AnnAssign) and n.value is not None:
+            pairs = [(n.target, n.value)]
+        elif isinstance(n, ast.NamedExpr):
+            pairs = [(n.target, n.value)]
+        elif isinstance(n, (ast.With, ast.AsyncWith)):
+            pairs = [(i.optional_vars, i.context_expr) for i in n.items if i.optional_vars is not None]
+        for t, v in pairs:
+            if value_pred(norm(v), v):
+                name = tuple(norm(e) for e in t.elts) if isinstance(t, (ast.Tuple, ast.List)) else norm(t)
+                if name not in out:
+                    out.append(name)
+    return out
+
+
+def one(names, what, where=""):
+    """The single element of `names`, else an analysis error (fail closed: the role could not be bound)."""
+    from .index import AnchorMissing
+
+    if len(names) != 1:
+        raise AnchorMissing(f"{where}: expected exactly one {what}, found {list(names)}")
+    return names[0]
